@@ -5,6 +5,7 @@ import (
 	"math/big"
 	"sort"
 	"strings"
+	"sync"
 )
 
 // Sorts are SMT-LIB sort strings.
@@ -826,8 +827,15 @@ func collect(ts []*Term) (syms map[string]string, funcs map[string]funcSig, lits
 
 // relevantAxioms keeps the axioms whose uninterpreted function symbols all... any occur in the
 // assertions (closed transitively); ground axioms over plain symbols are always kept.
+var fnsCache sync.Map // term id -> map[string]bool (read-only once stored)
+
 func relevantAxioms(axioms, asserts []*Term) []*Term {
+	// the symbol set of a term is computed once per term (terms are hash-consed and the same path conditions and
+	// axioms recur in every query of a run)
 	fnsOf := func(t *Term) map[string]bool {
+		if v, ok := fnsCache.Load(t.id); ok {
+			return v.(map[string]bool)
+		}
 		out := map[string]bool{}
 		seen := map[int]bool{}
 		var rec func(*Term)
@@ -850,6 +858,7 @@ func relevantAxioms(axioms, asserts []*Term) []*Term {
 			}
 		}
 		rec(t)
+		fnsCache.Store(t.id, out)
 		return out
 	}
 	have := map[string]bool{}
